@@ -48,6 +48,73 @@ impl PosRef {
     }
 }
 
+/// Harness model of funding, built from the history alone: each vAMM's cumulative premium fraction is the sum of the
+/// movements observed *at successful settlements*, and each position's checkpoint is the model fraction at its owner's last
+/// charged operation (order, partial close, withdrawal; the statement of C11). Neither is read back from the engine's
+/// stored checkpoint or from its cumulative fraction outside settlements, so a stale checkpoint or a fraction that
+/// moves without a settlement does not fool the checks that use funding owed.
+#[derive(Clone, Debug, Default)]
+pub struct FundingModel {
+    pub on: bool,
+    pub phi: Vec<S>,
+    pub l: std::collections::BTreeMap<(usize, usize), S>,
+}
+
+impl FundingModel {
+    pub fn start(&mut self, obs: &Obs) {
+        self.on = true;
+        self.phi = obs.v.iter().map(|v| v.cpf).collect();
+        self.l.clear();
+    }
+    /// called once per executed step of the main history line (never for what-if experiments)
+    pub fn step(&mut self, act: &crate::hist::Act, pre: &Obs, post: &Obs, ok: bool) {
+        if !self.on || !ok {
+            return;
+        }
+        use crate::hist::Act;
+        if let Act::PayFunding { v, .. } = act {
+            let dphi = post.v[*v].cpf.sub(&pre.v[*v].cpf);
+            self.phi[*v] = self.phi[*v].add(&dphi);
+            return;
+        }
+        if let Some((v, t)) = act.subject() {
+            let exists = post.pos[v][t].as_ref().map(|p| !p.size.is_zero()).unwrap_or(false);
+            match act {
+                Act::Open { .. } | Act::Close { .. } | Act::Withdraw { .. } => {
+                    if exists {
+                        self.l.insert((v, t), self.phi[v]);
+                    } else {
+                        self.l.remove(&(v, t));
+                    }
+                }
+                Act::Liquidate { .. } => {
+                    if !exists {
+                        self.l.remove(&(v, t));
+                    }
+                }
+                _ => {}
+            }
+        }
+    }
+    pub fn owed(&self, v: usize, t: usize, signed_size: S, d: u128) -> Option<S> {
+        if !self.on {
+            return None;
+        }
+        self.l.get(&(v, t)).map(|l| funding_owed(self.phi[v], *l, signed_size, d))
+    }
+}
+
+/// `pos_ref` with the funding owed taken from the history model (see `FundingModel`) where the model knows the position.
+/// For observations of the main history line only (a what-if experiment does not advance the model).
+pub fn pos_ref_m(w: &World, obs: &Obs, v: usize, t: usize) -> Option<PosRef> {
+    let mut pr = pos_ref(w, obs, v, t)?;
+    let signed = obs.pos[v][t].as_ref().map(|p| S::from_integer(p.size))?;
+    if let Some(f) = w.fmodel.owed(v, t, signed, w.d) {
+        pr.funding = f;
+    }
+    Some(pr)
+}
+
 pub fn pos_ref(w: &World, obs: &Obs, v: usize, t: usize) -> Option<PosRef> {
     let p = obs.pos[v][t].as_ref()?;
     if p.size.is_zero() {
